@@ -68,3 +68,23 @@ package ftp
 //@   ensures result
 //@ func (commandRest).RequireAuth
 //@   ensures result
+//
+// ---- TLS identity of the service (property C18): load, or generate and store; what is used is what is stored ----
+// The key-value store is seen through the ghost maps (ghaskv, gkv) of storage.Storage.
+//@ func generateKey
+//@   trusted
+//@   modifies nothing
+//@ func generateCert
+//@   trusted
+//@   modifies nothing
+//
+//@ func (*ftpStorage).Certificate
+//@   check safety, frame
+//@   ensures [stored] old(s.Storage.ghaskv["pemkey"]) && old(s.Storage.ghaskv["pemcert"]) && result1 == nil ==> result0.PrivateKey == pairkey(old(s.Storage.gkv["pemcert"]), old(s.Storage.gkv["pemkey"]))
+//@   ensures [kept] old(s.Storage.ghaskv["pemkey"]) ==> s.Storage.ghaskv["pemkey"] && s.Storage.gkv["pemkey"] == old(s.Storage.gkv["pemkey"])
+//@   ensures [kept-cert] old(s.Storage.ghaskv["pemcert"]) ==> s.Storage.ghaskv["pemcert"] && s.Storage.gkv["pemcert"] == old(s.Storage.gkv["pemcert"])
+//@   ensures [used-is-stored] result1 == nil && s.Storage.ghaskv["pemkey"] && s.Storage.ghaskv["pemcert"] ==> result0.PrivateKey == pairkey(s.Storage.gkv["pemcert"], s.Storage.gkv["pemkey"])
+//@   ensures [persisted] result1 == nil && !s.Storage.gsetfail ==> s.Storage.ghaskv["pemkey"] && s.Storage.ghaskv["pemcert"]
+//@   ensures [well-formed] result1 == nil ==> result0 != nil && result0.PrivateKey != nil
+//@   ensures [others] forall k string :: k != "pemkey" && k != "pemcert" ==> s.Storage.ghaskv[k] == old(s.Storage.ghaskv[k]) && s.Storage.gkv[k] == old(s.Storage.gkv[k])
+//@   modifies ghost(ghaskv), ghost(gkv), ghost(gsetfail)
